@@ -612,6 +612,10 @@ impl Spec {
         self.close_over();
         d
     }
+    /// some receiver (open or closed) lists the packet's payload type
+    pub fn lists_pt(&self, p: Pkt) -> bool {
+        self.pts.iter().any(|m| m & (1 << p.p) != 0)
+    }
     /// Which registered keys of listener `l` match packet `p` (for signatures)?
     pub fn matching_keys(&self, l: u8, p: Pkt) -> String {
         let mut v = vec![];
@@ -778,19 +782,37 @@ impl Lazy {
     }
     /// predicted receiving listener (None = nothing is queued anywhere)
     fn receive(&mut self, p: Pkt) -> Option<u8> {
+        self.receive_via(p).0
+    }
+    /// predicted receiving listener and the route the transport took to select it
+    fn receive_via(&mut self, p: Pkt) -> (Option<u8>, Via) {
+        let mut via = Via::Nobody;
+        let r = self.receive_inner(p, &mut via);
+        (r, via)
+    }
+    fn receive_inner(&mut self, p: Pkt, via: &mut Via) -> Option<u8> {
         let mut sel = None;
         let mut bind = false;
         if self.rid_on && (1..=2).contains(&p.rid) {
             sel = self.by_rid[(p.rid - 1) as usize];
             bind = sel.is_some();
+            if bind {
+                *via = Via::Rid;
+            }
         }
         if sel.is_none() && self.mid_on && (1..=2).contains(&p.mid) {
             sel = self.by_mid[(p.mid - 1) as usize];
             bind = sel.is_some();
+            if bind {
+                *via = Via::Mid;
+            }
         }
         if sel.is_none() {
             sel = self.by_ssrc[p.s as usize];
             bind = false;
+            if sel.is_some() {
+                *via = Via::Ssrc;
+            }
         }
         let mut listing = 0u8;
         let mut provs = 0u8;
@@ -807,10 +829,12 @@ impl Lazy {
         if sel.is_none() && listing.count_ones() == 1 {
             sel = Some(listing.trailing_zeros() as u8);
             bind = true;
+            *via = Via::Pt;
         }
         if sel.is_none() {
             if provs.count_ones() == 1 && !(self.fl.prov_unlisted && listing != 0) {
                 sel = Some(provs.trailing_zeros() as u8);
+                *via = Via::Prov;
             }
             bind = false;
         }
@@ -898,6 +922,9 @@ pub fn run(cfg: &Cfg, hist: &[Pkt], conn: &Arc<IceConn>) -> Run {
     let has_clear = cfg.ops.iter().any(|o| o.k == Kind::Clear);
     let mut out = Run { off_model: 0, n: hist.len(), obs: [Obs::default(); MAXH], dec: [Decision::default(); MAXH], viols: vec![], canon: Canon { key: [0; 18], deviant: None } };
     let mut bound = 0u8;
+    // an earlier packet of this history reached the provisional receiver although some receiver
+    // lists its payload type (the known ambiguous-PT fallback): later deviations are its echo
+    let mut ambiguous_fallback_seen = false;
     let status = match cfg.special {
         None => "open",
         Some((_, Stat::Full)) => "full",
@@ -906,7 +933,8 @@ pub fn run(cfg: &Cfg, hist: &[Pkt], conn: &Arc<IceConn>) -> Run {
     for (i, p) in hist.iter().enumerate() {
         let o = w.feed(*p);
         bound = o.bound;
-        let predicted = lz.receive(*p);
+        let (predicted, lazy_via) = lz.receive_via(*p);
+        let earlier_fallback = ambiguous_fallback_seen;
         let lazy_bound = (0..3).fold(0u8, |m, i| m | ((lz.by_ssrc[i].is_some() as u8) << i));
         if predicted.map(|l| 1u8 << l).unwrap_or(0) != o.delivered || lazy_bound != o.bound {
             out.off_model += 1;
@@ -940,7 +968,7 @@ pub fn run(cfg: &Cfg, hist: &[Pkt], conn: &Arc<IceConn>) -> Run {
             };
             let who: Vec<String> = (0..NL as u8).filter(|l| d.allowed & (1 << l) != 0).map(lname).collect();
             out.viols.push(Viol {
-                sig: format!("demux;misdelivery;got={got};want={want_class};receivers={status}{}", if has_clear { ";after-clear" } else { "" }),
+                sig: format!("demux;misdelivery;got={got};want={want_class};receivers={status}{}{}", if has_clear { ";after-clear" } else { "" }, if earlier_fallback { ";after-ambiguous-pt-fallback" } else { "" }),
                 detail: format!(
                     "step {i}: packet {} was delivered to {} (its registered keys matching the packet: {got}); the statement identifies {} (by {wants}){}",
                     p.short(),
@@ -950,6 +978,9 @@ pub fn run(cfg: &Cfg, hist: &[Pkt], conn: &Arc<IceConn>) -> Run {
                 ),
                 step: i,
             });
+        }
+        if delivered.is_some() && predicted == delivered && lazy_via == Via::Prov && spec.lists_pt(*p) {
+            ambiguous_fallback_seen = true;
         }
         out.obs[i] = o;
         out.dec[i] = d;
